@@ -318,7 +318,7 @@ func H_C04_groups() {
 	}
 	idx := vMetaIndex(docs)
 	c := vI64("c")
-	menu := []Filter{In("s", "a"), Gte("i", c), Ne("b", true), Exists("i"), Lt("i", c), NotIn("s", "b", "zz"), NotExists("nofield"), NotExists("b")}
+	menu := []Filter{In("s", "a"), Gte("i", c), Ne("b", true), Exists("i"), Lt("i", c), NotIn("s", "b", "zz"), Ne("i", c), NotExists("b")}
 	st0 := vMetaState(idx)
 	pick := func(nm string) Filter { return menu[vChoose(nm, len(menu))] }
 	g1 := []Filter{pick("g1a")}
